@@ -306,17 +306,38 @@ def run_check(mod, tier, seed, replay=None):
     impl_obs = []
     t_impl = time.time()
     for c in cases:
-        impl_obs.append(canon(mod.run_impl(c)))
+        try:
+            impl_obs.append(canon(mod.run_impl(c)))
+        except Exception as e:      # the implementation (or the harness driving it) crashed on this case
+            import traceback
+            impl_obs.append(['crash', type(e).__name__, traceback.format_exc()[-800:]])
     t_impl = time.time() - t_impl
     model_obs = [None] * len(cases)
     n_vm = 0
     if model_ok:
         try:
-            trees = [mod.encode(c) for c in cases]
+            trees, enc_err = [], {}
+            for n, c in enumerate(cases):
+                try:
+                    trees.append(mod.encode(c))
+                except Exception as e:     # e.g. the implementation returned something the encoder cannot place
+                    import traceback
+                    enc_err[n] = ['model-input-could-not-be-built', type(e).__name__, traceback.format_exc()[-600:]]
+                    trees.append([])
             outs = run_model(pid, trees)
-            model_obs = [canon(mod.decode(o, c)) for o, c in zip(outs, cases)]
+            model_obs = []
+            for n, (o, c) in enumerate(zip(outs, cases)):
+                if n in enc_err:
+                    model_obs.append(enc_err[n])
+                    continue
+                try:
+                    model_obs.append(canon(mod.decode(o, c)))
+                except Exception as e:
+                    import traceback
+                    model_obs.append(['model-output-could-not-be-read', type(e).__name__, traceback.format_exc()[-600:]])
             if not replay:
-                n_vm = vm_crosscheck(pid, trees, outs)
+                ok_idx = [n for n in range(len(cases)) if n not in enc_err]
+                n_vm = vm_crosscheck(pid, [trees[n] for n in ok_idx], [outs[n] for n in ok_idx])
         except Broken as b:
             broken.append((b.what, b.detail))
             model_ok = False
@@ -332,7 +353,10 @@ def run_check(mod, tier, seed, replay=None):
         if hasattr(mod, 'classify'):
             for tag in mod.classify(c):
                 stats[tag] = stats.get(tag, 0) + 1
-        fails = list(mod.oracle(c, io)) if hasattr(mod, 'oracle') else []
+        try:
+            fails = list(mod.oracle(c, io)) if hasattr(mod, 'oracle') else []
+        except Exception as e:
+            fails = ['the oracle could not interpret the observation (%s: %s)' % (type(e).__name__, str(e)[:200])]
         disagree = model_ok and io != mo
         if not fails and not disagree:
             continue
